@@ -621,6 +621,23 @@ class Inliner:
                 ast.copy_location(loop, st)
                 ast.fix_missing_locations(loop)
                 st = loop
+        # D.update(self._gen(...)) with a private generator of (key, value) pairs: one item store per generated pair
+        if isinstance(st, ast.Expr) and isinstance(st.value, ast.Call) and isinstance(st.value.func, ast.Attribute) and st.value.func.attr == "update" \
+                and len(st.value.args) == 1 and not st.value.keywords and isinstance(st.value.args[0], ast.Call) \
+                and isinstance(st.value.func.value, (ast.Name, ast.Attribute)):
+            r = self.resolve_call(st.value.args[0])
+            if r is not None and _is_generator(r[0]) and all(
+                    isinstance(y.value, ast.Tuple) and len(y.value.elts) == 2 for y in ast.walk(r[0]) if isinstance(y, ast.Yield)) \
+                    and not any(isinstance(y, ast.YieldFrom) for y in ast.walk(r[0])):
+                self.counter += 1
+                kv, vv = f"__k{self.counter}", f"__v{self.counter}"
+                store = ast.Assign(targets=[ast.Subscript(value=copy.deepcopy(st.value.func.value), slice=ast.Name(id=kv, ctx=ast.Load()), ctx=ast.Store())],
+                                   value=ast.Name(id=vv, ctx=ast.Load()))
+                loop = ast.For(target=ast.Tuple(elts=[ast.Name(id=kv, ctx=ast.Store()), ast.Name(id=vv, ctx=ast.Store())], ctx=ast.Store()),
+                               iter=st.value.args[0], body=[store], orelse=[])
+                ast.copy_location(loop, st)
+                ast.fix_missing_locations(loop)
+                st = loop
         # for T in self._gen(...): BODY   with a private generator helper: the helper's body with `yield E` -> `T = E; BODY`
         if isinstance(st, ast.For) and not st.orelse and isinstance(st.iter, ast.Call):
             r = self.resolve_call(st.iter)
@@ -1651,6 +1668,8 @@ def normalize(repo: Repo, ci: Optional[ClassInfo], fn: ast.FunctionDef, sf: Opti
     out = _flatten_only(repo, ci, fn, sf, **kw)
     if any(isinstance(n, ast.Call) and isinstance(n.func, ast.Call) and norm(n.func.func).split(".")[-1] in ("itemgetter", "attrgetter") for n in ast.walk(out)):
         out = desugar_getters(out)
+    if any(isinstance(n, ast.Call) and norm(n.func).split(".")[-1] == "iter_unpack" for n in ast.walk(out)):
+        out = desugar_iter_unpack(out)
     if any(isinstance(n, ast.For) and isinstance(n.iter, (ast.Name, ast.GeneratorExp, ast.ListComp)) for n in ast.walk(out)) and \
             any(isinstance(n, (ast.GeneratorExp, ast.ListComp)) for n in ast.walk(out)):
         try:
@@ -1822,6 +1841,52 @@ def desugar_genexp_loops(fn: ast.FunctionDef) -> ast.FunctionDef:
     ast.fix_missing_locations(new_fn)
     number(new_fn)
     return new_fn
+
+
+def desugar_iter_unpack(fn: ast.FunctionDef) -> ast.FunctionDef:
+    """`(v for (v,) in iter_unpack("<i", D))` (also as a list comprehension) is the tuple `unpack("<" + "i" * (len(D) // 4), D)`:
+    one single-field record per element, in order.  (For data whose length is not a multiple of the record size both raise
+    struct.error.)"""
+    import struct as _struct
+
+    class U(ast.NodeTransformer):
+        def _try(self, node):
+            if len(node.generators) != 1 or node.generators[0].ifs:
+                return None
+            g = node.generators[0]
+            it = g.iter
+            if not (isinstance(it, ast.Call) and norm(it.func).split(".")[-1] == "iter_unpack" and len(it.args) == 2 and isinstance(it.args[0], ast.Constant)
+                    and isinstance(it.args[0].value, str)):
+                return None
+            fmt = it.args[0].value
+            order, code = (fmt[0], fmt[1:]) if fmt[:1] in "<>=!@" else ("", fmt)
+            if len(code) != 1 or code in "xsp":
+                return None
+            if not (isinstance(g.target, (ast.Tuple, ast.List)) and len(g.target.elts) == 1 and isinstance(g.target.elts[0], ast.Name)
+                    and isinstance(node.elt, ast.Name) and node.elt.id == g.target.elts[0].id):
+                return None
+            try:
+                size = _struct.calcsize((order or "=") + code)
+            except _struct.error:
+                return None
+            d = it.args[1]
+            count = ast.BinOp(left=ast.Call(func=ast.Name(id="len", ctx=ast.Load()), args=[copy.deepcopy(d)], keywords=[]), op=ast.FloorDiv(), right=ast.Constant(value=size))
+            f_expr = ast.BinOp(left=ast.Constant(value=order), op=ast.Add(), right=ast.BinOp(left=ast.Constant(value=code), op=ast.Mult(), right=count)) if order \
+                else ast.BinOp(left=ast.Constant(value=code), op=ast.Mult(), right=count)
+            return ast.copy_location(ast.Call(func=ast.Name(id="unpack", ctx=ast.Load()), args=[f_expr, copy.deepcopy(d)], keywords=[]), node)
+
+        def visit_GeneratorExp(self, node):
+            node = self.generic_visit(node)
+            return self._try(node) or node
+
+        def visit_ListComp(self, node):
+            node = self.generic_visit(node)
+            r = self._try(node)
+            return ast.copy_location(ast.Call(func=ast.Name(id="list", ctx=ast.Load()), args=[r], keywords=[]), node) if r is not None else node
+    new = U().visit(copy.deepcopy(fn))
+    ast.fix_missing_locations(new)
+    number(new)
+    return new
 
 
 def desugar_getters(fn: ast.FunctionDef) -> ast.FunctionDef:
